@@ -38,8 +38,14 @@ func appliedExecOn(t *Tracker, chain string) []*mhub2types.BatchExecutedEvent {
 	return out
 }
 
+// expired: the timeout runs from the moment the transfer was created (as first observed; the hub's own record
+// of that moment is not trusted to stay what it was).
 func expired(w *World, e *mhub2types.SendToExternal, now time.Time) bool {
-	return time.Unix(int64(e.CreatedAt), 0).Add(time.Duration(w.Cfg.OutgoingTxTimeoutMs) * time.Millisecond).Before(now)
+	created := e.CreatedAt
+	if c, ok := w.createdAt[e.ChainId+"/"+strconv.FormatUint(e.Id, 10)]; ok && c < created {
+		created = c
+	}
+	return time.Unix(int64(created), 0).Add(time.Duration(w.Cfg.OutgoingTxTimeoutMs) * time.Millisecond).Before(now)
 }
 
 // ------------------------------------------------------------------------------------------------
